@@ -16,10 +16,22 @@ class Handler:
         self.cls, self.fn, self.key = cls, fn, key
         self._cfg: Optional[CFG] = None
 
+    # public helpers the rules refer to by name are kept as calls; everything private is inlined
+    KEEP = ("enforce_required", "enforce_length", "format_datetime", "normalize_to_gmt", "parse_gmt_offset", "convert", "unconvert")
+
+    @property
+    def ffn(self):
+        """the handler with private helpers of its class / module inlined and accumulate-loops canonicalised"""
+        if getattr(self, "_ffn", None) is None:
+            from .flat import flat
+
+            self._ffn = flat(self.cls.project, self.cls.module, self.fn, self.cls, keep=self.KEEP)
+        return self._ffn
+
     @property
     def cfg(self) -> CFG:
         if self._cfg is None:
-            self._cfg = CFG(self.fn)
+            self._cfg = CFG(self.ffn)
         return self._cfg
 
     @property
@@ -49,6 +61,15 @@ class Handler:
     def value_param(self) -> Optional[str]:
         args = [a.arg for a in self.fn.args.args]
         return args[1] if len(args) > 1 else None
+
+    def return_paths(self):
+        """[(path, returned expression resolved along the path (text), simple path conditions)], PathList"""
+        if getattr(self, "_rp", None) is None:
+            from .match import Expander
+            from .paths import return_paths
+
+            self._rp = return_paths(self.ffn, self._lookup, Expander(self.ffn))
+        return self._rp
 
     def __repr__(self):
         return f"<handler {self.qualname} [{self.key}]>"
